@@ -11,9 +11,11 @@ FLAVOUR=${1:?flavour}
 shift || true
 VERIF=$(cd "$(dirname "$0")/.." && pwd)
 REPO=${VERIF_REPO:-/repo}
-B=$VERIF/_build/$FLAVOUR
+BUILD_ROOT=${VERIF_BUILD_ROOT:-$VERIF/_build}
+B=$BUILD_ROOT/$FLAVOUR
 mkdir -p "$B"
 export CCACHE_DIR=$VERIF/_build/ccache
+mkdir -p "$CCACHE_DIR"
 export CCACHE_BASEDIR=/
 export CCACHE_NOHASHDIR=1
 export CCACHE_MAXSIZE=8G
